@@ -527,9 +527,27 @@ def copy_struct(v):
 
 @exact("go.brendoncarroll.net/p2p/f/x509.MarshalPublicKey")
 def x509_marshal(ex, g, fid, args):
+    # opaque bytes, but a function of the key (algorithm and data): equal keys marshal equally
     from .builtins_ import go_append
     out = args[0]
-    return go_append(ex, out if out.arr is not None else Slice([], 0, 0, 0), [ex.havoc(8, "mk") for _ in range(2)])
+    key = ex.load(args[1])
+    data = slice_elems(key[1]) if isinstance(key[1], Slice) else []
+    enc = functional_havoc(ex, ex.hash_tables.setdefault("x509marshal", []), [list(key[0][0]), list(data)], 2, 2, "mk")
+    return go_append(ex, out if out.arr is not None else Slice([], 0, 0, 0), enc)
+
+
+@exact("golang.org/x/crypto/sha3.Sum256")
+def sha3_sum256(ex, g, fid, args):
+    return functional_havoc(ex, ex.hash_tables.setdefault("sha3-256", []), [slice_elems(args[0])], 32, 2, "h3")
+
+
+@exact("golang.org/x/crypto/sha3.ShakeSum256")
+def sha3_shakesum256(ex, g, fid, args):
+    dst = args[0]
+    out = functional_havoc(ex, ex.hash_tables.setdefault("shake256", []), [slice_elems(args[1]), [dst.len]], dst.len, 2, "hk")
+    for k in range(dst.len):
+        dst.arr[dst.off + k] = out[k]
+    return None
 
 
 @pattern(r"^go\.uber\.org/zap\.(Any|String|Error|Int|Uint32|Uint8|Bool|Duration|Time|Stringer|Binary)$")
